@@ -13,6 +13,9 @@ import sys
 
 FIXES = {  # subject prefix -> properties whose check must fire when the fix is reverted
     "fix: config.set records": ["C17"],
+    "fix: Layer.clone renames GraphNode": ["C16"],
+    "fix: dataframe collections accept rename": ["C16"],
+    "fix: array-expression collections accept rename": ["C16"],
     "fix: squashing two assigns": ["C43"],
     "fix: order() assigns a priority": ["C06"],
     "fix: reshape_blockwise": ["C13"],
